@@ -74,7 +74,7 @@ var shippedParsers = []*shippedParser{
 			}
 			var s tm.TokenStream
 			s.Init(src, l)
-			var p tm.Parser
+			p := &spReused.tm // parser objects are reused: Init has to bring them back to a clean state
 			p.Init(func(se tm.SyntaxError) bool {
 				o.Errors = append(o.Errors, spError{se.Offset, se.Endoffset})
 				return len(o.Errors) != stopAfter && len(o.Errors) < 200
@@ -117,7 +117,7 @@ var shippedParsers = []*shippedParser{
 			}
 			var s js.TokenStream
 			s.Init(src, l)
-			var p js.Parser
+			p := &spReused.js
 			p.Init(func(se js.SyntaxError) bool {
 				o.Errors = append(o.Errors, spError{se.Offset, se.Endoffset})
 				return len(o.Errors) != stopAfter && len(o.Errors) < 200
@@ -158,7 +158,7 @@ var shippedParsers = []*shippedParser{
 		parse: func(ctx context.Context, entry int, src string, stopAfter int, onEvent func(int)) (o spOutcome) {
 			var l json.Lexer
 			l.Init(src)
-			var p json.Parser
+			p := &spReused.json
 			p.Init(func(t json.NodeType, off, end int) {
 				o.Events = append(o.Events, spEvent{t.String(), off, end})
 				if onEvent != nil {
@@ -177,7 +177,7 @@ var shippedParsers = []*shippedParser{
 		parse: func(ctx context.Context, entry int, src string, stopAfter int, onEvent func(int)) (o spOutcome) {
 			var l ptest.Lexer
 			l.Init(src)
-			var p ptest.Parser
+			p := &spReused.test
 			p.Init(func(t ptest.NodeType, flags ptest.NodeFlags, off, end int) {
 				o.Events = append(o.Events, spEvent{t.String(), off, end})
 				if onEvent != nil {
@@ -563,4 +563,13 @@ func spErrOffset(err error) (int, bool) {
 		return e.Offset, true
 	}
 	return 0, false
+}
+
+// spReused holds one parser object per shipped parser. Every parse of the harness goes through
+// Init + Parse on the same object, also right after a parse that ended in an error.
+var spReused struct {
+	tm   tm.Parser
+	js   js.Parser
+	json json.Parser
+	test ptest.Parser
 }
